@@ -43,6 +43,12 @@ type Case struct {
 	// Subscribe (netconf): the operations are subscription rpcs and the server pushes a
 	// notification after each reply (shared state: the subscription store).
 	Subscribe bool `json:"subscribe,omitempty"`
+	// Reopen: this many complete open / operation / close rounds happen on the same driver
+	// before the scenario (every Close must close the transport again).
+	Reopen int `json:"reopen,omitempty"`
+	// OnCloseHook (generic, network): the driver has an on-close function that sends a command;
+	// with the peer gone it fails, and the close must complete all the same.
+	OnCloseHook bool `json:"on_close_hook,omitempty"`
 }
 
 var states = []string{
@@ -60,6 +66,16 @@ func gen(t *rapid.T) Case {
 		SecondClose: rapid.IntRange(0, 3).Draw(t, "second") == 0,
 		CloseFails:  rapid.IntRange(0, 3).Draw(t, "closeFails") == 0,
 		Subscribe:   rapid.IntRange(0, 2).Draw(t, "subscribe") == 0,
+		Reopen:      rapid.SampledFrom([]int{0, 0, 0, 1, 2}).Draw(t, "reopen"),
+		OnCloseHook: rapid.IntRange(0, 3).Draw(t, "onCloseHook") == 0,
+	}
+
+	if c.Driver == "netconf" {
+		// re-opening is exercised through the channel (generic and network drivers). A NETCONF
+		// driver is not meant to be opened twice on the pinned tree: after a 1.1 session it cannot
+		// read the next hello (the delimiter pattern stays that of 1.1), and the read loop of the
+		// previous session may still be running when the next Open rewrites the pattern.
+		c.Reopen = 0
 	}
 
 	if c.State == "data-concurrent" || c.State == "err-concurrent" || c.State == "eof-concurrent" {
@@ -78,6 +94,7 @@ type session struct {
 	close   func() error
 	op      func(timeout time.Duration) error // an operation the device will answer
 	stallOp func(timeout time.Duration) error // an operation the device will not answer
+	reset   func()                            // a fresh device for another session on the same driver
 }
 
 func opTimeout(c Case) time.Duration {
@@ -132,6 +149,10 @@ func build(c Case) (*session, error) {
 		}
 		s.pipe = sim.NewPipe(srv)
 		srv.Pipe = s.pipe
+		s.reset = func() {
+			fresh := &sim.NCServer{Hello: srv.Hello, Version: srv.Version, OnRequest: srv.OnRequest, Pipe: s.pipe}
+			s.pipe.Reset(fresh)
+		}
 
 		d, err := netconf.NewDriver("sim", common(s.pipe)...)
 		if err != nil {
@@ -168,9 +189,21 @@ func build(c Case) (*session, error) {
 		return "ok" + "\r\n", false
 	}
 	s.pipe = sim.NewPipe(dev)
+	s.reset = func() {
+		s.pipe.Reset(&sim.CLI{NL: "\r\n", Prompt: dev.Prompt, OnLine: dev.OnLine})
+	}
 
 	if c.Driver == "generic" {
-		d, err := generic.NewDriver("sim", common(s.pipe)...)
+		gopts := common(s.pipe)
+		if c.OnCloseHook {
+			gopts = append(gopts, options.WithOnClose(func(gd *generic.Driver) error {
+				_, e := gd.SendCommand("exit Q")
+
+				return e
+			}))
+		}
+
+		d, err := generic.NewDriver("sim", gopts...)
 		if err != nil {
 			return nil, err
 		}
@@ -184,6 +217,13 @@ func build(c Case) (*session, error) {
 
 	levels := map[string]*network.PrivilegeLevel{"exec": {Name: "exec", Pattern: promptRe.String()}}
 	opts := append(common(s.pipe), options.WithPrivilegeLevels(levels), options.WithDefaultDesiredPriv("exec"))
+	if c.OnCloseHook {
+		opts = append(opts, options.WithNetworkOnClose(func(nd *network.Driver) error {
+			_, e := nd.SendCommand("exit Q")
+
+			return e
+		}))
+	}
 
 	d, err := network.NewDriver("sim", opts...)
 	if err != nil {
@@ -264,6 +304,34 @@ func run1(c Case) ev.Verdict {
 	ctl := installOrder(c.Order, patience)
 
 	defer uninstallOrder()
+
+	for round := 0; round < c.Reopen; round++ {
+		if err = s.open(); err != nil {
+			s.pipe.Release()
+
+			return ev.Fail("round %d: Open: %v", round, err)
+		}
+
+		if err = s.op(0); err != nil && !c.RealTime {
+			s.pipe.Release()
+
+			return ev.Fail("round %d: operation: %v", round, err)
+		}
+
+		if err = s.close(); err != nil && !c.CloseFails {
+			s.pipe.Release()
+
+			return ev.Fail("round %d: Close: %v", round, err)
+		}
+
+		if s.pipe.Closes != round+1 {
+			s.pipe.Release()
+
+			return ev.Fail("round %d: Close returned but the transport was closed %d times in %d rounds", round, s.pipe.Closes, round+1)
+		}
+
+		s.reset()
+	}
 
 	if err = s.open(); err != nil {
 		s.pipe.Release()
@@ -397,11 +465,11 @@ func run1(c Case) ev.Verdict {
 		return ev.Fail("Close took %v, bound %v", el, bound)
 	}
 
-	if s.pipe.Closes < 1 {
+	if s.pipe.Closes < c.Reopen+1 {
 		s.pipe.Release()
 		ctl.releaseAll()
 
-		return ev.Fail("Close returned but the transport was never closed")
+		return ev.Fail("Close returned but the transport was not closed (closed %d times in %d sessions)", s.pipe.Closes, c.Reopen+1)
 	}
 
 	if c.SecondClose {
@@ -445,7 +513,15 @@ func run1(c Case) ev.Verdict {
 		v.Classes = append(v.Classes, "ordered")
 	}
 
-	v.NonTrivial = c.State != "idle" || feasible > 0 || c.SecondClose
+	v.NonTrivial = c.State != "idle" || feasible > 0 || c.SecondClose || c.Reopen > 0
+
+	if c.Reopen > 0 {
+		v.Classes = append(v.Classes, "re-opened")
+	}
+
+	if c.OnCloseHook && c.Driver != "netconf" {
+		v.Classes = append(v.Classes, "on-close-hook")
+	}
 
 	return v
 }
